@@ -388,7 +388,9 @@ static const char* run_case(const std::string& line)
         seed_shuffle(seed, N);
         TapkeeOutput out = run_api(m, data.begin(), data.end(), kernel, distance, features,
                                    (method = meth, target_dimension = d, landmark_ratio = ratio,
-                                    num_neighbors = k, eigen_method = Dense, check_connectivity = false));
+                                    num_neighbors = k, eigen_method = Dense, check_connectivity = false,
+                                    neighbors_method = Brute)); // k-nn search itself is property C02; Brute keeps
+                                                                // non-metric integer tables meaningful
         if ((m == "lmds" || m == "lisomap") && g_perm_seen)
         {
             std::printf("PERM");
